@@ -837,6 +837,22 @@ class RTDCBase(abc.ABC):
                     f"Encountered cyclic basin dependency '{bdict['key']}'",
                     feat_basin.CyclicBasinDependencyFoundWarning)
                 continue
+            # The basin class is defined by the basin format.
+            b_cls = bc[bdict["format"]]
+            if bdict["type"] not in ["internal", "file", "remote"]:
+                warnings.warn(
+                    f"Encountered unsupported basin type '{bdict['type']}'!")
+                continue
+            elif bdict["type"] != b_cls.basin_type:
+                # The declared basin type must be the type of the basin
+                # class. Otherwise, a basin declared as "remote" or
+                # "internal" with a file-based format could be used to
+                # access the local file system (see `_local_basins_allowed`).
+                warnings.warn(
+                    f"Basin type '{bdict['type']}' does not match the type "
+                    f"'{b_cls.basin_type}' of basin format "
+                    f"'{bdict['format']}'!")
+                continue
 
             # Basin initialization keyword arguments
             kwargs = {
@@ -857,7 +873,6 @@ class RTDCBase(abc.ABC):
 
             # Check whether this basin is supported and exists
             if bdict["type"] == "internal":
-                b_cls = bc[bdict["format"]]
                 bna = b_cls(bdict["paths"][0], **kwargs)
                 # In contrast to file-type basins, we just add all remote
                 # basins without checking first. We do not check for
@@ -885,8 +900,6 @@ class RTDCBase(abc.ABC):
                 # perform the actual check
                 for pp in p_paths:
                     pp = pathlib.Path(pp)
-                    # Instantiate the proper basin class
-                    b_cls = bc[bdict["format"]]
                     # Try absolute path
                     bna = b_cls(pp, **kwargs)
                     if bna.verify_basin():
@@ -902,8 +915,6 @@ class RTDCBase(abc.ABC):
                             break
             elif bdict["type"] == "remote":
                 for url in bdict["urls"]:
-                    # Instantiate the proper basin class
-                    b_cls = bc[bdict["format"]]
                     bna = b_cls(url, **kwargs)
                     # In contrast to file-type basins, we just add all remote
                     # basins without checking first. We do not check for
@@ -912,9 +923,6 @@ class RTDCBase(abc.ABC):
                     # and because checking the availability of remote basins
                     # normally takes a lot of time.
                     basins.append(bna)
-            else:
-                warnings.warn(
-                    f"Encountered unsupported basin type '{bdict['type']}'!")
         return basins
 
     def get_measurement_identifier(self):
